@@ -25,7 +25,7 @@ type encryptedData struct {
 }
 
 type encryptionMethod struct {
-	Algorithm string `xml:"Algorithm,attr"`
+	Algorithm string
 }
 
 type cipherData struct {
@@ -33,7 +33,42 @@ type cipherData struct {
 }
 
 type cipherReference struct {
-	URI string `xml:"URI,attr"`
+	URI string
+}
+
+// UnmarshalXML reads the Algorithm attribute of an EncryptionMethod element.
+// A field tagged `xml:"Algorithm,attr"` is filled from ANY attribute whose local
+// name is Algorithm, the last one winning: the namespace declaration in
+// <EncryptionMethod Algorithm="...aes256-cbc" xmlns:Algorithm="http://www.idpf.org/2008/embedding"/>
+// was read as the algorithm, and the encrypted content passed as font obfuscation.
+// The attributes of XML Encryption are unqualified; only those count.
+func (m *encryptionMethod) UnmarshalXML(d *xml.Decoder, start xml.StartElement) error {
+	if v, ok := unqualifiedAttr(start, "Algorithm"); ok {
+		m.Algorithm = v
+	}
+	return d.Skip()
+}
+
+// UnmarshalXML reads the URI attribute of a CipherReference element (see
+// encryptionMethod.UnmarshalXML).
+func (c *cipherReference) UnmarshalXML(d *xml.Decoder, start xml.StartElement) error {
+	if v, ok := unqualifiedAttr(start, "URI"); ok {
+		c.URI = v
+	}
+	return d.Skip()
+}
+
+// unqualifiedAttr returns the value of the last attribute of start that has the
+// given local name and no namespace (a namespace declaration xmlns:name="..."
+// arrives as an attribute in the space "xmlns").
+func unqualifiedAttr(start xml.StartElement, name string) (string, bool) {
+	value, found := "", false
+	for _, a := range start.Attr {
+		if a.Name.Space == "" && a.Name.Local == name {
+			value, found = a.Value, true
+		}
+	}
+	return value, found
 }
 
 // checkForDRM checks if the EPUB has DRM protection.
